@@ -9,11 +9,12 @@
     IREQ … same as TREQ, through the index-level matcher `Node.matchIdx` (Model/TreeIdx)  → … | panic
     URL <name hex> <k hex> <v hex> …                 → <hex> | panic
 
-  The AST on the ADD line (`!` = the text is outside the grammar) is what the route parser
-  returns for the text; Model/Parser (C06) ties text and AST.
+  The route text of an ADD line is parsed by Model/Parser; the AST on the line (`!` = the text is
+  outside the grammar) is what the REAL parser returned for the text and must agree (cross-check).
 -/
 import Flamego.Model.Router
 import Flamego.Model.TreeIdx
+import Flamego.Model.Parser
 import Flamego.Driver.Common
 namespace Flamego.Driver.Router
 
@@ -95,8 +96,12 @@ structure St where
 
 def step (E : Engine) (st : St) (l : List String) : St × String :=
   match l with
-  | ["ADD", hid, ms, _text, ast] =>
-    match parseAst ast with
+  | ["ADD", hid, ms, text, ast] =>
+    -- the route text is parsed by the MODEL parser (Model/Parser, proved sound and complete for the
+    -- grammar in Props/C06); the AST the real parser returned travels on the line as a cross-check
+    let parsed := Flamego.parse (hexOf text)
+    if parsed != parseAst ast then (st, "ast-mismatch")
+    else match parsed with
     | none => (st, "err")
     | some r =>
       let methods := methodsOf ms
